@@ -18,8 +18,8 @@ AUDIT_FILES = ["ScoresVerif/Lemmas/Bridge.lean", "ScoresVerif/Lemmas/Murphy.lean
 LEVEL = "proof"
 TRUSTED = ["hand model of broadcast_and_match_nan / mean(skipna) / np.unique / np.concatenate in Model/Murphy.lean "
            "(tied by correspondence only)",
-           "integral of a step / piecewise-affine function = step sum / midpoint rule on a kink-complete grid "
-           "(elementary calculus, DESIGN 3.4)"]
+           "(no longer trusted) step sum / midpoint rule on a kink-complete grid = Mathlib's Lebesgue interval integral: proved in "
+           "Lemmas/Bridge.lean and Props/C11Bridge.lean (integral_*_lebesgue, integral_over_thetas_*_lebesgue)"]
 ASSUMPTIONS = ["finite forecasts and observations (an infinite forecast makes fcst*0.0 NaN: see notes/C11.md)",
                "all forecast sources passed to murphy_thetas have the same shape (see notes/C11.md)",
                "dyadic inputs so float + - * and comparisons are exact; means compared to 1e-9 (2e-6 when an input is "
@@ -41,7 +41,7 @@ MANIFEST = dict(
          "returned by murphy_thetas) is the pinball / half asymmetric squared / Huber loss.",
     note="Trusted: Lean kernel; py2lean translator; SV.Fl (IEEE minus rounding/overflow/signed zero); hand model of "
          "broadcast_and_match_nan, mean(skipna), np.unique/concatenate and the functional dispatch (tied by differential "
-         "correspondence only); step / midpoint-rule calculus as the meaning of the integral (no Mathlib measure-theory bridge). "
+         "correspondence only); the step / midpoint-rule calculus is proved equal to Mathlib's Lebesgue interval integral (Props/C11Bridge.lean). "
          "Not proved in Lean: Taggart's closed form taggartH = elemH. Not generated: infinite forecasts (fcst*0.0 is NaN: the "
          "quantile/Huber score of an infinite forecast is 0, notes/C11.md N1) and forecast sources of different shapes in "
          "murphy_thetas (huber/expectile raise, N2); different coordinate label sets on fcst and obs.",
